@@ -219,12 +219,12 @@ func (raceEngine) Run(ctx *fw.Ctx, cs any) {
 		reqs = append(reqs, nil)
 	}
 	// a refresh storm: both lease files are rewritten (same version, so nothing changes for the oracles)
-	// every 150 us while a long burst of requests from clients that are NOT in the files is in flight -
+	// every 50 us while a long burst of requests from clients that are NOT in the files is in flight -
 	// lookups that miss, racing reloads
 	{
 		stormV4 := versionFile(false, raceStaticMacs, ver, "")
 		stormV6 := versionFile(true, raceStaticMacs, ver, "")
-		for j := 0; j < 500; j++ {
+		for j := 0; j < 3000; j++ {
 			xid++
 			r := &raceReq{v6: j%3 == 2, xid: xid & 0xffffff, unanswered: false}
 			r.mac = dynMac(20000 + j%40)
@@ -242,10 +242,10 @@ func (raceEngine) Run(ctx *fw.Ctx, cs any) {
 				r.storm = true
 			}
 			if j == 0 {
-				cr.Write = &FileWrite{Name: "l4.txt", Content: stormV4, Repeat: 400, IntervalUs: 150}
+				cr.Write = &FileWrite{Name: "l4.txt", Content: stormV4, Repeat: 2000, IntervalUs: 50}
 			}
 			if j == 1 {
-				cr.Write = &FileWrite{Name: "l6.txt", Content: stormV6, Repeat: 400, IntervalUs: 150}
+				cr.Write = &FileWrite{Name: "l6.txt", Content: stormV6, Repeat: 2000, IntervalUs: 50}
 			}
 			reqs = append(reqs, r)
 			job.Reqs = append(job.Reqs, cr)
